@@ -275,6 +275,11 @@ def explore_comb(build, make_ref, cfg, tier, seed, *, letter_cap=40000, sim_budg
             outs, _ = comp.step(comp.init, letter)
             exp = ref.expected(letter)
             evals += 1
+            if "__error__" in exp:
+                err = dict(msg=exp["__error__"], signature=dict(kind="metadata"))
+                return dict(states=1, transitions=evals, violation=dict(
+                    kind="comb", err=err, trace=[list(letter)], inputs=comp.in_names, probes=comp.probe_names,
+                    signature=err["signature"]))
             if len(outcomes) < 20000:
                 outcomes.add(tuple(outs[i] for i in pidx))
             for p, i in zip(probes, pidx):
@@ -321,6 +326,8 @@ def replay_comb(build, make_ref, cfg, trace):
     ref = make_ref(cfg, h3, comp)
     for t, (letter, g) in enumerate(zip(trace, got)):
         exp = ref.expected(tuple(letter))
+        if "__error__" in exp:
+            return dict(msg=exp["__error__"]), t
         for p, i in comp.probe_index.items():
             e = exp.get(p)
             if e is not None and g[i] != e:
